@@ -442,6 +442,8 @@ declspecs(struct scope *s, enum storageclass *sc, enum funcspec *fs, int *align)
 				e = expr(s);
 				if (e->decayed)
 					e = e->base;
+				if (e->kind == EXPRBITFIELD)
+					error(&tok.loc, "typeof applied to bit-field expression");
 				t = e->type;
 				if (op == TTYPEOF)
 					tq |= e->qual;
